@@ -1,6 +1,7 @@
 import PGV.Spec.Lang
 import PGV.Props.Facts
 import PGV.Proofs.LangEq
+import PGV.Proofs.EmailEq
 
 /-!
 # C05 — format and content rules accept exactly their documented language
@@ -9,11 +10,11 @@ Three layers:
 1. `T2_patterns` (re-decided on every run): the regular expressions in the source are, up to
    `regexp/syntax` normalisation, the ones the model's recognisers transcribe.
 2. The theorems below: for *every* byte string the model's recognisers agree with the independent
-   recognisers of `Spec.Lang` (phone, idcard, int, float), the layout builder produces exactly the
+   recognisers of `Spec.Lang` (phone, idcard, int, float, email), the layout builder produces exactly the
    interleaving of components and separators (all separators), and the content rules `unique`,
    `prefix`, `suffix` decide what the documentation says.
 3. The `lang` stream: members, single-rune edits of members and random strings through every entry
-   point; the implementation's verdict is judged against `Spec.Lang` (also for email, dates with custom
+   point; the implementation's verdict is judged against `Spec.Lang` (also for dates with custom
    separators, in / include / ints), its text against the model.  `time.Parse`, `net.ParseIP`,
    `json.Valid`, `regexp` on user patterns and `os.Stat` are residuals answered by the standard library.
 -/
@@ -61,6 +62,11 @@ theorem C05_float (s : Bytes) : Model.Lang.floatRe s = Spec.Lang.float s := PGV.
 
 /-- `(^\d{15}$)|(^\d{18}$)|(^\d{17}(\d|X|x)$)` -/
 theorem C05_idcard (s : Bytes) : Model.Lang.idCardRe s = idcard s := PGV.Proofs.LangEq.idcard_eq s
+
+/-- `^\w+([-+.]\w+)*@\w+([-.]\w+)*\.\w+([-.]\w+)*$`: exactly one `@`; the local part is words joined by
+single `-`, `+` or `.`; the domain is words joined by single `-` or `.` with at least one `.` — for
+every byte string -/
+theorem C05_email (s : Bytes) : Model.Lang.emailRe s = Spec.Lang.email s := PGV.Proofs.EmailEq.email_eq s
 
 /-! ### the layout builder `GetTimeFmt` -/
 
